@@ -264,6 +264,43 @@ def rule_T8(ctx):
                 r.examine(("rebuilt", v, i), True)
                 if ps and ps != {i}:
                     r.finding(cf[0]["path"], "rebuilt:%s.%d" % (v, i), cw, "field %d of the rebuilt %s comes from field(s) %s of the original" % (i, v, sorted(ps)))
+    # ---------------------------------------------------------------- T8c unconditional trace
+    # the copy pass resolves every occurrence of a record through the scratch stack the reachability pass built, and relies on
+    # a record's children being queued after EVERY occurrence of it.  So an arm queues its reference fields whenever it is
+    # taken - never depending on what the object (or the scratch stack so far) holds.
+    f0 = tf[0]
+    body0 = Body(f0)
+    self_lids = set(b["lid"] for prm in f0.get("params", [])[:1] for b in walk(prm) if b.get("k") == "Binding")
+    def state_dependent(e, depth=0, seen=None):
+        seen = seen if seen is not None else set()
+        for x in walk(e):
+            if x.get("k") == "Path" and x.get("res") == "local":
+                if x["lid"] in self_lids:
+                    return True
+                if x["lid"] in seen or depth > 6:
+                    continue
+                seen.add(x["lid"])
+                for d_ in body0.defs.get(x["lid"], []):
+                    if isinstance(d_, dict) and d_.get("k") not in ("Param", "ClosureParam", "Destructure", "Field", "Binding") and state_dependent(d_, depth + 1, seen):
+                        return True
+        return False
+    arms0, _m0 = _variant_arms(F, f0)
+    n_cond = 0
+    for v, arm in sorted(arms0.items()):
+        def is_queue(n):
+            return n.get("k") in ("Call", "MethodCall") and any(d.endswith("BasicData::CloneItem") for d, _c in hirq.calls_in(n))
+        for n in walk(arm["body"]):
+            if n.get("k") != "If" or (n.get("src") not in (None, "Normal") and "Desugar" in str(n.get("src"))):
+                continue
+            t_, e_ = n.get("then"), n.get("else")
+            q_t = any(is_queue(x) for x in walk(t_ or {}))
+            q_e = any(is_queue(x) for x in walk(e_ or {}))
+            skips = any(x.get("k") in ("Continue", "Break") and not any("ForLoop" in z for z in (x.get("exp") or [])) for br in (t_, e_) for x in walk(br or {}))
+            if (q_t != q_e or skips) and (q_t or q_e or any(is_queue(x) for x in walk(arm["body"]))):
+                n_cond += 1
+                if state_dependent(n["cond"]):
+                    r.finding(f0["path"], "conditional-trace:" + v, loc(n), "the %s arm of the reachability pass queues the record's reference fields only under a condition that looks at the object's state (%s): the copy pass resolves every occurrence of a record through the scratch stack and needs the children queued after each of them - a value reachable twice then fails to clone (NoMappedIndexFoundDuringClone) or is left behind by optimize" % (v, loc(n)))
+    r.analysed["conditional_trace_sites"] = n_cond
     # ---------------------------------------------------------------- T8b roots
     of = F.find_fns(crate="garnish_lang_simple_data", name="optimize_data_block_and_retain")
     if not of:
